@@ -30,7 +30,7 @@ Definition specOptHeader := sp [("id", true); ("nonum", false)].
 Close Scope string_scope.
 
 
-Definition process_paragraph (s : st) : st := (wo (format_paragraph s (buf s)) s) <| buf := [] |> <| par := false |>.
+Definition process_paragraph (s : st) : st := (wo (format_paragraph s (flat (buf s))) s) <| buf := [] |> <| par := false |>.
 Definition end_par (b : pbreak) (s : st) : st := if par s then end_paragraph b (process_paragraph s) else s.
 
 Definition last_scope (m : string) (l : list scope) : option scope :=
